@@ -2,7 +2,27 @@
 # profiles: (harness profile, histories quick, histories thorough, ops per history)
 # kern: (kernel cases quick, thorough)
 BET_KINDS = ['MADD', 'MUPD', 'MRES', 'DEP', 'WDR', 'WAG', 'GRANT', 'END']
+BET_TRUST = ['betting-core model: coq/Model/{Types,Orderbook,Chain}.v transcribe x/market, x/orderbook, x/bet, x/house keepers and the authz contract used by house']
 PROPS = {
+  'C06': dict(
+    profiles=[('bet', 60, 1200, 80), ('sub', 40, 600, 80), ('ovm', 40, 600, 100)],
+    monitors=['C06'], own_kinds=BET_KINDS + ['PROP', 'VOTE', 'SWAG', 'SDEP', 'SWDR'],
+    trusted=BET_TRUST + ['translator /verif/translator (handlers.v): CHA-style call inlining, both branches concatenated',
+                         'EdDSA/JWT (golang-jwt/v4, crypto/ed25519) abstracted to (signer key id | -1, exp); exercised by forged tokens (10 forgery kinds), not proved'],
+    assumes=['cryptographic unforgeability of EdDSA and correctness of the JWT library are assumed (partial: crypto core)'],
+  ),
+  'C14': dict(
+    profiles=[('ovm', 80, 2000, 120)],
+    monitors=['C14'], own_kinds=['PROP', 'VOTE', 'END'],
+    trusted=['ovm model: coq/Model/Chain.v (ovm_propose, ovm_vote, ovm_finish) transcribes x/ovm keeper/types'],
+    assumes=['key identity = position in the harness key universe (9 ed25519 keys); PEM parsing modelled as id >= 0'],
+  ),
+  'C15': dict(
+    profiles=[('bet', 30, 300, 60), ('sub', 20, 200, 60), ('ovm', 10, 100, 60)],
+    monitors=['C15'], own_kinds=BET_KINDS, twoproc=(6, 60),
+    trusted=['translator /verif/translator (nondet.v): map ranges, wall clock, goroutines, select, rand in x/*/keeper, x/*/types, abci, utils, types'],
+    assumes=['Go runtime, IAVL/store and SDK module determinism are outside the model (runtime part is exploration: two fresh processes per history)'],
+  ),
   'C13': dict(
     profiles=[('mint', 60, 1500, 400), ('bet', 40, 600, 80)],
     kern=(20000, 400000),
